@@ -105,4 +105,19 @@ theorem skipSame_iff {v : View} {env : Env} {cs out : List Cand}
     simp only [hfind, hne, Bool.false_eq_true, ↓reduceIte, List.mem_filter, existingSeeds,
       Bool.not_eq_eq_eq_not, Bool.not_true, List.any_eq_false, Bool.not_eq_true]
 
+/-- **MahalanobisFarEnough drops exactly the candidates inside an extension**: an individual
+survives iff it was a candidate and no deme of the target level reports it inside its
+extension (the in-extension verdicts are the environment's; non-CMA-ES demes report nothing). -/
+theorem mahalanobis_iff {v : View} {env : Env} {cs out : List Cand}
+    (h : applyFilter v env .mahalanobis cs = some out) :
+    List.Forall₂ (fun c c' => c'.deme = c.deme ∧ c'.level = c.level ∧
+      ∀ i, i ∈ c'.inds ↔ (i ∈ c.inds ∧ ∀ s ∈ v.level (c.level + 1), env.maha i.genome s.id ≠ some true)) cs out := by
+  simp only [applyFilter, Option.some.injEq] at h
+  subst h
+  induction cs with
+  | nil => exact .nil
+  | cons c cs ih =>
+    refine .cons ⟨rfl, rfl, fun i => ?_⟩ ih
+    simp only [List.mem_filter, List.all_eq_true, bne_iff_ne, ne_eq]
+
 end C10
